@@ -105,9 +105,8 @@ Apply(e) ==
     [] k = "consume" ->
          [s EXCEPT !.slot = @ \ {e.t},
                    !.fin = [@ EXCEPT ![e.t] = IF @ = "none" THEN (IF e.ok = 1 THEN "ok" ELSE "fail") ELSE @]]
-    [] k = "died" ->
+    [] k = "died" ->      \* the code *declares* the worker dead; whether it really died is the environment's word (w_die)
          [s EXCEPT !.slot = @ \ {e.t},
-                   !.died = @ \cup {e.t},
                    !.fin = [@ EXCEPT ![e.t] = IF @ = "none" THEN "fail" ELSE @]]
     [] k = "exec_stop" ->
          [s EXCEPT !.slot = @ \ {e.t}]
